@@ -98,6 +98,9 @@ func AllScenarios() []*Scenario {
 		{Name: "timeout-vs-commit", Group: "atom", Init: t3, Ticks: 1, Clients: [][]Tran{
 			{upd(I("t", "5", "5", "5"), I("t", "6", "6", "6"))},
 			{upd(I("t", "7", "7", "7"))}}},
+		{Name: "commit-then-next-tran-sees-it", Group: "atom", Init: t3, Clients: [][]Tran{
+			{upd(I("t", "5", "5", "5")), upd(L("t", 0, "5"), U("t", "5", "5", "6", "5"))},
+			{upd(I("t", "7", "7", "7"))}}},
 		{Name: "dup-error-then-continue", Group: "atom", Init: t3, Clients: [][]Tran{
 			{upd(I("t", "1", "9", "9"), I("t", "5", "5", "5"))},
 			{upd(D("t", "1"), I("t", "8", "8", "8"))}}},
